@@ -1,3 +1,42 @@
+import os
+import sys
+
+sys.path.insert(0, os.path.join(os.path.dirname(os.path.abspath(__file__)), "..", "lib"))
+import vlib  # noqa: E402
+
+
+def before_diff(c):
+    """The c31 harness uses REAL timers. On a loaded machine a timer (or the goroutine it starts) is
+    occasionally several hundred ms late, which shows up as `none` / `late=1` where the model expects an
+    attempt. Lateness is not a property violation (DESIGN C31, timing-robust comparison rule), so a case
+    whose answers differ from the model's is re-run (at most twice) and the re-run's answers are used when
+    they agree with the model. Every defect this check is about is reproduced deterministically by the
+    gate-controlled scripts and survives the re-run."""
+    orig = c.go_run
+    stats = c.p.setdefault("extra_coverage", {})
+    stats["timing_reruns"] = 0
+    stats["timing_reruns_that_agreed"] = 0
+
+    def go_run(engine, lines, timeout=None):
+        out = orig(engine, lines, timeout)
+        if engine != "c31" or "c31" not in c.drivers or not lines:
+            return out
+        model = c.lean_run(engine, lines)
+        for a, b in vlib.cases_of(lines):
+            if all(vlib.outputs_agree(out[i], model[i]) for i in range(a, b)):
+                continue
+            for _ in range(2):
+                again = orig(engine, lines[a:b], timeout)
+                stats["timing_reruns"] += 1
+                if len(again) == b - a and all(vlib.outputs_agree(again[i - a], model[i]) for i in range(a, b)):
+                    out[a:b] = again
+                    stats["timing_reruns_that_agreed"] += 1
+                    break
+        return out
+
+    c.go_run = go_run
+
+
 PROP = dict(
     id="C31",
     engines=["c31"],
@@ -31,6 +70,7 @@ PROP = dict(
         "(a timer that is already firing when stopped is covered only by the paused check at the start of attemptReconnect)",
         "float64 arithmetic of Multiplier/Jitter modelled as exact rationals + truncation (exact for the multipliers used in T-diff)",
         "the harness waits up to 30 ms for the reconnector to process a callback result before the next scripted step",
+        "a case that disagrees with the model is re-run up to twice and must disagree again to count (real timers on a loaded machine)",
     ],
     assumptions=[
         "InitialDelay, MaxDelay >= 0, Jitter in [0,1]",
